@@ -88,15 +88,15 @@ theorem unmarshal_no_panic (env : Env) (f n : Nat) (buf : List Byte) :
     cases d with
     | struct tys =>
       simp only
-      have h2 := decFields_adv (dec f env true) hd tys buf
+      have h2 := decFields_adv env (dec f env true) hd tys buf
       cases hr : decFields (dec f env true) tys buf with
       | ok z => simp
       | err => simp
-      | panic => rw [hr] at h2; simp [AdvList] at h2
+      | panic => rw [hr] at h2; simp [AdvStruct] at h2
       | fuel => simp
     | msg fds =>
       simp only
-      have h2 := hm fds buf
+      have h2 := hm n fds buf hn
       cases hr : decMsgBody f env true fds buf with
       | ok z => simp
       | err => simp
@@ -104,7 +104,7 @@ theorem unmarshal_no_panic (env : Env) (f n : Nat) (buf : List Byte) :
       | fuel => simp
     | union brs =>
       simp only
-      have h2 := hu brs buf
+      have h2 := hu n brs buf hn
       cases hr : decUnionBody f env true brs buf with
       | ok z => simp
       | err => simp
